@@ -65,7 +65,7 @@ def main():
                 specs.append(tok); meta.append(("token", ("".join(sorted(m)), base, place, m)))
     n_exh = len(specs)
     # sampled sequences with arbitrary whitespace
-    nseq = 60000 if R.thorough else 4000
+    nseq = 250000 if R.thorough else 4000
     seqs = []
     for _ in range(nseq):
         s, toks = gen_seq(R.rng)
